@@ -38,6 +38,12 @@ CHECKS = {
         note=TRUST + " Operations whose names are given as strings that may be unresolvable are checked by the invariant only (counted as transition_unmodelled).",
         ref="DESIGN.md section 4, C05",
     ),
+    "C07": dict(
+        technique="deterministic simulation: seeded histories inside the PROV-O-expressible space, one seeded blank-node id stream (rdflib.term.uuid4 seam) and hash seed per run, set-based strict comparison with unified()",
+        text="Seeded histories biased into the quantifier's space and filtered by an eligibility predicate written from it (names under document-level prefixes, non-empty bundles, one kind per identifier, first two formal arguments, no mention, no PROV class as relation type, anonymous binary-only relations without attributes, value kinds); each eligible state is written in the default TriG syntax and read back: no exception may occur and the strict per-container *set* of records must equal that of unified(). Every run draws its own blank-node identifiers from the run seed, so each seed is one exact TriG order / reader triple order and orders vary across seeds; workers run under different PYTHONHASHSEED values. Evidence, not proof.",
+        note=TRUST + " Interpretation: identified or attributed alternate/specialization/membership (no qualified class in PROV-O) and a plain binary triple restating a qualified relation to the same object are treated as outside 'PROV-O-expressible'.",
+        ref="DESIGN.md section 4, C07",
+    ),
     "C08": dict(
         technique="deterministic simulation: seeded identifier-reuse histories, refinement of unified() against a reference merge, idempotence, source non-interference",
         text="Seeded histories with identifier pools of 2-3 names (same identifier on several records of one kind with overlapping/conflicting attributes, on different kinds, inside and outside bundles, through different prefixes); every unified() call on a document or bundle is compared with a reference merge (conflict => ProvException; else one record per identifier and kind carrying the union, anonymous records untouched, first-occurrence order, same bundle identifiers), must return a new object, leave the source's content and namespaces unchanged, and be idempotent. Evidence, not proof.",
